@@ -55,6 +55,31 @@ def strategy(tier, flags):
     return pair()
 
 
+EXHAUSTIVE_SCOPE = {
+    "thorough": "all ordered pairs among the 256 NFAs with 2 states over {a} and every start/final marking (65536 "
+                "pairs, all operations incl. union/concatenate/kleene_star) and every 2-state epsilon-NFA over "
+                "{a, b, eps} (65536) paired with one fixed two-state partner (start 0, final 1, 0-a->1, 1-b->0)",
+}
+
+
+def exhaustive(tier, shard, nshards):
+    if tier != "thorough":
+        return
+    from vlib.scope import enfa_scope
+    autos = [d for _i, d in enfa_scope(2, False, labels=("a",))]
+    idx = 0
+    for x in autos:
+        for y in autos:
+            if idx % nshards == shard:
+                yield {"a": dict(x, pool="scope"), "b": dict(y, pool="scope"), "plain": True}
+            idx += 1
+    partner = {"cls": "enfa", "how": "mut", "order": "tsf", "trans": [[0, "a", 1], [1, "b", 0]],
+               "starts": [0], "finals": [1], "pool": "scope"}
+    for i, d in enfa_scope(2, False, labels=("a", "b", None)):
+        if i % nshards == shard:
+            yield {"a": dict(d, pool="scope"), "b": partner, "plain": True}
+
+
 def cmp_lang(failures, name, expected, lib_result, alphabet):
     M = ref_fa.from_lib(lib_result)
     w = ref_fa.equivalent(expected, M, set(alphabet) | M.alphabet | expected.alphabet)
